@@ -191,7 +191,7 @@ def _set_derived(E, prop):
             return True
         for n in ast.walk(f):
             if isinstance(n, ast.Call) and isinstance(n.func, ast.Attribute) and isinstance(n.func.value, ast.Name) \
-                    and n.func.value.id == "self":
+                    and n.func.value.id in ("self", "cls", "System"):
                 o, g = pm.find_method("System", n.func.attr)
                 if g is not None and check(g):
                     return True
